@@ -25,7 +25,7 @@ CHARS = ["0", "1", "7", "9", "a", "e", "f", "x", "o", "b", "p", "_", ".", "+", "
 LITS = ["'a'", "'\\n'", "'\\t'", "'\\\\'", "'\\''", "'\\\"'", "'\\x41'", "'\\u00e9'", "'\\U0001F600'", "'\\101'", "'\\0'", "'\\a'", "'\\b'", "'\\f'",
         "'\\r'", "'\\v'", "'é'", "'世'", "''", "'ab'", "'\\q'", "'\\xZZ'", "'\\x4'", "'\\400'", "'\\ud800'", "'\\U00110000'", "'\\u12'", "'\\8'", "'\\18'",
         '"abc"', '""', '"a\\nb"', '"\\x41\\u00e9\\U0001F600\\101"', '"\\\'"', '"\\""', '"é世"', '"\\q"', '"\\xZ"', '"\\ud800"', '"\\400"', '"a\\', '"tab\\there"',
-        "`raw\\n`", "`a\nb`", "``", '"\\a\\b\\f\\r\\v\\t"', '"\\377"', '"\\xff\\xfe"', "'\\xff'", "'\\377'"]
+        "`raw\\n`", "`a\nb`", "``", '`"hi"`', '`x = "y"`', '`"`', '`""`', '`a"`', '`"a`', '"`a`"', '"`"', '"a`"', '"`a"', "`'`", '"\'"', "'\"'", "'`'", '"\\a\\b\\f\\r\\v\\t"', '"\\377"', '"\\xff\\xfe"', "'\\xff'", "'\\377'"]
 
 
 def run(ck):
@@ -44,6 +44,34 @@ def run(ck):
         seen.add(k)
         cases.append({"id": len(cases), "kind": "tree", "min": t["min"], "full": t["full"]})
     ntrees = len(cases)
+    # (1b) the same trees in every statement/expression context (r += e, return e, call argument, for post statement, ...): the
+    # documented grouping does not depend on where the expression stands.  Plus forms TLC's binary-operator trees do not contain.
+    CONTEXTS = ["define", "assign", "add-assign", "shl-assign", "andnot-assign", "return", "export", "expr-stmt", "call-arg", "spread-arg", "index", "slice-low",
+                "slice-high", "array-elem", "map-value", "if-cond", "if-init", "for-cond", "for-post", "for-init", "forin", "ternary-cond", "ternary-true",
+                "ternary-false", "error", "immutable", "paren-call", "sel-assign", "index-assign"]
+    # (only contexts that delimit the expression: "e + z", "-e", "e ? 1 : 2" would legitimately regroup a minimally parenthesised e)
+    CONTEXTS.remove("ternary-cond")
+    P = lambda *t: list(t)
+    extra_forms = [
+        (P("c", "?", "2", ":", "3"), P("(", "c", "?", "2", ":", "3", ")")),
+        (P("a", "?", "b", ":", "c", "?", "d", ":", "e"), P("(", "a", "?", "b", ":", "(", "c", "?", "d", ":", "e", ")", ")")),
+        (P("a", "||", "b", "?", "c", "+", "1", ":", "d", "&&", "e"), P("(", "(", "a", "||", "b", ")", "?", "(", "c", "+", "1", ")", ":", "(", "d", "&&", "e", ")", ")")),
+        (P("a", "?", "b", "?", "1", ":", "2", ":", "3"), P("(", "a", "?", "(", "b", "?", "1", ":", "2", ")", ":", "3", ")")),
+        (P("-", "-", "x"), P("(", "-", "(", "-", "x", ")", ")")), (P("+", "+", "x"), P("(", "+", "(", "+", "x", ")", ")")),
+        (P("-", "+", "-", "x"), P("(", "-", "(", "+", "(", "-", "x", ")", ")", ")")), (P("!", "!", "x"), P("(", "!", "(", "!", "x", ")", ")")),
+        (P("^", "^", "x"), P("(", "^", "(", "^", "x", ")", ")")), (P("!", "-", "x"), P("(", "!", "(", "-", "x", ")", ")")),
+        (P("-", "x", "*", "y"), P("(", "(", "-", "x", ")", "*", "y", ")")), (P("!", "a", "&&", "b"), P("(", "(", "!", "a", ")", "&&", "b", ")")),
+        (P("a", "-", "-", "b"), P("(", "a", "-", "(", "-", "b", ")", ")")), (P("a", "+", "+", "b"), P("(", "a", "+", "(", "+", "b", ")", ")")),
+        (P("-", "f", "(", "1", ")"), P("(", "-", "f", "(", "1", ")", ")")), (P("-", "a", "[", "0", "]"), P("(", "-", "a", "[", "0", "]", ")")),
+        (P("-", "a", ".", "b"), P("(", "-", "a", ".", "b", ")")), (P("a", "<<", "b", "+", "c"), P("(", "(", "a", "<<", "b", ")", "+", "c", ")")),
+    ]
+    step = 11 if quick else 1
+    tree_subset = [c for c in cases[:ntrees]][::step]
+    for ctx in CONTEXTS:
+        for c in tree_subset:
+            cases.append({"id": len(cases), "kind": "treectx", "tc": ctx, "min": c["min"], "full": c["full"]})
+        for mn, fl in extra_forms:
+            cases.append({"id": len(cases), "kind": "treectx", "tc": ctx, "min": mn, "full": fl})
     if not quick:
         # depth 3 over one representative per precedence level and associativity class (the full depth-3 set has ~10^13 trees)
         for t in deep_trees():
@@ -79,10 +107,25 @@ def run(ck):
             rt.append(p)
     for p in rt:
         cases.append({"id": len(cases), "kind": "roundtrip", "s": p["src"]})
+    # hand-written sources for the printer: nested unary operators of the same and of different sign, with and without parentheses,
+    # literals whose spelling matters, every statement kind once
+    unary_srcs = []
+    for a in ("-", "+", "!", "^"):
+        for b in ("-", "+", "!", "^"):
+            for operand in ("x", "1", "(x)", "f(1)", "x.y", "x[0]"):
+                unary_srcs.append("x := {y: 1}\nf := func(a) { return a }\nr := %s %s%s\n" % (a, b, operand))
+                unary_srcs.append("x := {y: 1}\nf := func(a) { return a }\nr := %s(%s%s)\n" % (a, b, operand))
+                unary_srcs.append("x := {y: 1}\nf := func(a) { return a }\nr := 2 %s %s%s\n" % (a if a in "-+^" else "-", b, operand))
+    unary_srcs += ['r := `"hi"`\n', 'r := "`a`"\n', "r := 'a'\n", "r := 1.0\n", "r := 1e3\n", "r := 0x1F\n", 'r := "a\\tb"\n',
+                   "a := [1, 2, 3]\nr := a[1:]\ns := a[:2]\nt := a[:]\n", "f := func(a, ...b) { return b }\nr := f(1, [2]...)\n",
+                   "r := 0\nfor i := 0; i < 3; i++ { if i == 1 { continue } else if i == 2 { break }; r += i > 0 ? 2 : 3 }\n",
+                   "m := {a: 1}\nfor k, v in m { m[k] = v + 1 }\nr := immutable([error(1)])\n"]
+    for src in unary_srcs:
+        cases.append({"id": len(cases), "kind": "roundtrip", "s": src})
     res = vlib.run_cases(ck, "syntax", cases, nproc=12)
     # numbers outside the TLC alphabet: Go is the oracle for classification as well
     extra_res = vlib.run_cases(ck, "syntax", [{"id": i, "kind": "num", "s": s} for i, s in enumerate(extra_nums)], nproc=2)
-    stats = {"tree": 0, "semi": 0, "num": 0, "lit": 0, "roundtrip": 0}
+    stats = {"tree": 0, "treectx": 0, "semi": 0, "num": 0, "lit": 0, "roundtrip": 0}
     spec_vs_go = 0
     for c in cases:
         o = res[c["id"]]
@@ -95,6 +138,13 @@ def run(ck):
             if o.get("err") or o["got"] != o["want"]:
                 ck.violation("grouping:" + outer_op(c), "%r is grouped as %s, the documented precedence/associativity gives %s" % (
                     " ".join(c["min"]), o.get("got") or o.get("err"), o.get("want", "".join(c["full"]))), {"case": c, "real": o})
+                continue
+        elif k == "treectx":
+            if o.get("skip"):
+                continue
+            if o.get("err") or o["got"] != o["want"]:
+                ck.violation("grouping-in-context:" + c["tc"], "%r is parsed as %s, the documented grouping gives %s" % (
+                    o.get("src"), o.get("got") or o.get("err"), o.get("want")), {"case": c, "real": o})
                 continue
         elif k == "semi":
             if o["semi"] != c["want"]:
